@@ -9,67 +9,7 @@ VERIF = os.path.dirname(HERE)
 
 PENDING_REASON = "check not built yet (work in progress; DESIGN.md section 9 gives the build order)"
 
-CLAIMED = {
-    "C05": {
-        "text": "Theorem dop_sound in Coq (coq/Props/C05.v, 10 obligations, closed under the global context): the executable "
-                "model of DifferentialOperator.eval (atoms kept as canonical derivative atoms, function-free expressions by "
-                "symbolic differentiation incl. the chain rule through mapping components, Add, Mul with coefficient "
-                "extraction and 1/2/n-factor Leibniz, Pow by the logarithmic rule, refusal otherwise) returns an expression "
-                "that denotes D_i of its argument for EVERY expression tree, every operator dx..dz/dx1..dx3 and every "
-                "differential field (the abstract structure standing for all smooth functions and points); corollaries: "
-                "additivity, Leibniz, linearity over constants, vanishing on constants, commuting mixed partials, canonical "
-                "atoms for re-ordered chains, refusal of unsupported functions of fields. Tie to the code: on every run the "
-                "real operators are applied to generated expressions and their output is proved equal (kernel-checked, per "
-                "case, by the verified field-equality checker tequiv) both to the model's output and to the reference "
-                "derivative; an independent numeric oracle (explicit polynomials + sympy.diff) searches failing inputs.",
-        "design_ref": "DESIGN.md section 5 C05",
-        "note": "Trusted: Coq kernel + vm_compute; hand model tied by correspondence only; serialiser tools/impl/ser.py (incl. "
-                "exponent law for integer shifts of general powers); sympy arithmetic and sympy.diff are modelled, not "
-                "verified; the reading of 'all smooth functions/points' as 'every dfield' (DESIGN 4.2, inhabitedness of "
-                "dfield is a mathematical meta-argument, not formalised); only scalar arguments (vectors/matrices are "
-                "entry-wise); mixed physical/logical chains not modelled.",
-        "technique": "Coq proof by structural induction over expression trees in an abstract differential field + "
-                     "per-case kernel-checked equivalence (reflexive field normaliser) against the implementation",
-    },
-    "C12": {
-        "text": "Two layers. (1) Theorems in Coq (coq/Props/C12.v, closed under the global context) about a model in which "
-                "objects are seen by ==/hash/the caches only through their key: a memoised computation returns the pure "
-                "result for EVERY history, every correct cache content and every clearing point provided names are "
-                "hygienic (equal keys => equal attributes); the statement is refuted without hygiene (witness: 'Omega' as a "
-                "2-D then 3-D domain); results obtained by canonical sorting do not depend on the order of members (hence not "
-                "on set iteration order / hash seed) when printed names are injective, refuted otherwise; boundary-condition "
-                "positions are stable unless a condition object is shared between equations (refuted witness). (2) The "
-                "runtime part - CPython's hash seed, sympy's cache configuration, earlier history in the interpreter - "
-                "cannot be exhibited by a theorem: it is EXPLORED by running 9 target computations of the real library in "
-                "separate interpreter processes (fresh vs after random hygienic / name-colliding histories, cache on/off/"
-                "cleared at random points, several PYTHONHASHSEED values, permuted operands / union members / "
-                "connectivity entries) and comparing with the fresh baseline; the hygiene label of each generated history "
-                "is decided inside Coq by the proved-sound test faithful_b.",
-        "design_ref": "DESIGN.md section 5 C12",
-        "note": "Partial by nature: the proof covers the memoisation / canonical-order / in-place-mutation logic of the model; "
-                "the interpreter-level behaviour is sampled, not proved (labelled in the evidence). Trusted: Coq kernel, the "
-                "runner tools/impl/C12_impl.py (targets, history operations), the digest of attributes used for the hygiene "
-                "test. Known findings: identity by name (stale cache after a same-name different-dimension history) and "
-                "the shared EssentialBC position write.",
-        "technique": "Coq proof (refinement of a memoised computation by induction over histories; canonical sorting) + "
-                     "multi-process differential exploration of the real runtime",
-    },
-    "C14": {
-        "text": "Theorems in Coq (coq/Props/C14.v, 16 obligations, closed under the global context) about an executable model "
-                "of Union.__new__/complement/iteration: the result is the sorted duplicate-free list of exactly the supplied "
-                "members, is a function of the SET of members (commutativity incl. refusals, idempotence, flattening), "
-                "degenerate cases, refusal of mixed dimensions and non-domains, complement = set difference, and every "
-                "iterator yields each member exactly once under ANY interleaving of iter()/next() - all for unbounded "
-                "families and operation sequences. The model is tied to sympde/topology/basic.py by a correspondence run "
-                "(real Union vs model, decided inside Coq by vm_compute) plus a direct oracle of the property on the "
-                "implementation's outputs.",
-        "design_ref": "DESIGN.md section 5 C14",
-        "note": "Trusted: Coq kernel + vm_compute; the hand-written model (tied by correspondence only); the runner/generator/"
-                "serialiser in tools/; atoms enter the model with the str/dim/== class observed on the real objects; "
-                "well-formed families (== is identity, str injective) - collisions belong to C12.",
-        "technique": "Coq proof (induction over lists / operation sequences) + model-vs-implementation correspondence",
-    },
-}
+CLAIMED = json.load(open(os.path.join(HERE, "manifest_entries.json")))
 
 
 def main():
